@@ -172,6 +172,9 @@ class World:
         for k, v in vars(mod).items():
             if k.isupper() and isinstance(v, (int, float, str)) and not isinstance(v, bool) and k != 'CONTEXT_FILE':
                 self.spec_consts[k] = v
+            elif k.isupper() and isinstance(v, dict) and k not in ('CLASSES', 'LOOPS', 'UFS', 'DYN_TYPES', 'ABSTRACT_FACTS',
+                                                                   'DISPATCH_FALLBACK') and _plain(v):
+                self.spec_consts[k] = v
         self.ghost_names |= set(getattr(mod, 'GHOSTS', []))
         for k, v in getattr(mod, 'ABSTRACT_FACTS', {}).items():
             self.abstract_facts.setdefault(k, []).extend(v)
@@ -328,6 +331,8 @@ class World:
         file = fkey[1] if fkey[0] == 'spec' else fkey[0]
         if fkey[0] == 'spec':
             if name in self.spec_consts:
+                for ax in vals.int_key_axioms(self.spec_consts[name]):
+                    it.assume_axiom(ax)
                 return SV(const(self.spec_consts[name]))
             file = self.context_file(fkey[1])
         return self.resolve_in_file(it, name, file)
@@ -347,6 +352,12 @@ class World:
             if name in self.classes:
                 return PV('class', name)
             raise Unsupported(f'unresolved name {name}')
+        mv = (self.current or {}).get('module_values', {})
+        if name in mv:
+            # module-level table whose value is given by the contract (stated assumption, validated bounded)
+            for ax in vals.int_key_axioms(mv[name]):
+                it.assume_axiom(ax)
+            return SV(const(mv[name]))
         if (file, name) in SPECIAL_GLOBALS:
             return PV('modattr', SPECIAL_GLOBALS[(file, name)])
         if name in SINGLETONS and self._is_unique_object(file, name):
@@ -403,6 +414,8 @@ class World:
         if full in ('base64.b64decode', 'base64.b64encode'):
             return PV('builtin', name)
         if full in MODULE_FUNCS:
+            if MODULE_FUNCS[full].startswith('contract:'):
+                return PV('abstract', {'contract': MODULE_FUNCS[full][9:], 'bound': {}})
             return PV('builtin', MODULE_FUNCS[full])
         if full in MODULE_CLASSES:
             return PV('class', MODULE_CLASSES[full])
@@ -564,7 +577,7 @@ class World:
         m = {'int': V.is_IntV(v), 'float': z3.And(V.is_FloatV(v), V.r(v) <= vals.FMAXR, V.r(v) >= -vals.FMAXR),
              'bool': V.is_BoolV(v), 'str': V.is_StrV(v), 'bytes': V.is_BytesV(v), 'any': z3.BoolVal(True),
              'number': vals.is_number(v), 'tuple': V.is_TupleV(v), 'list': V.is_ListV(v), 'dict': V.is_DictV(v),
-             'set': V.is_SetV(v), 'none': V.is_NoneV(v), 'lock': V.is_ObjV(v), 'rlock': V.is_ObjV(v),
+             'set': V.is_SetV(v), 'set[obj]': V.is_SetV(v), 'none': V.is_NoneV(v), 'lock': V.is_ObjV(v), 'rlock': V.is_ObjV(v),
              'enum': V.is_EnumV(v)}
         if fty in m:
             return m[fty]
@@ -574,7 +587,7 @@ class World:
             # element when it is looked up / iterated (element_kind), justified by the declared field type
             if kind in ('tuple', 'list'):
                 return V.is_TupleV(v) if kind == 'tuple' else V.is_ListV(v)
-            if kind in ('dict', 'enumdict'):
+            if kind.split('[', 1)[0] in ('dict', 'enumdict'):
                 return V.is_DictV(v)
             if kind == 'callable':
                 return V.is_ObjV(v)
@@ -1030,12 +1043,20 @@ class World:
 
 BUILTIN_TYPE_NAMES = {'int', 'float', 'bool', 'str', 'bytes', 'tuple', 'list', 'dict', 'set', 'object', 'type',
                       'frozenset', 'Mapping', 'NoneType', 'EnumMember'}
-MODULE_FUNCS = {'time.time': 'time_time', 'time.sleep': 'time_sleep', 'json.dumps': 'json_dumps',
-                'json.loads': 'json_loads', 'os.rename': 'os_rename', 'os.remove': 'os_remove',
-                'os.path.join': 'os_path_join'}
+MODULE_FUNCS = {'os.path.dirname': 'contract:os.path.dirname', 'os.scandir': 'contract:os.scandir', 'os.remove': 'contract:os.remove',
+                'time.time': 'time_time', 'time.sleep': 'time_sleep', 'json.dumps': 'json_dumps',
+                'json.loads': 'json_loads'}
 MODULE_CLASSES = {}
 SINGLETONS = {'Done': -101, 'UNSET': -102}
 SPECIAL_GLOBALS = {('frappy/lib/__init__.py', 'generalConfig'): 'frappy.lib.generalConfig'}
+
+
+def _plain(v):
+    if isinstance(v, dict):
+        return all(isinstance(k, (str, int)) and _plain(x) for k, x in v.items())
+    if isinstance(v, (list, tuple)):
+        return all(_plain(x) for x in v)
+    return v is None or isinstance(v, (bool, int, float, str))
 
 
 def _static_ty(ty):
